@@ -39,7 +39,10 @@ def grad_strategy(dim):
 
 @st.composite
 def elastic_cases(draw, dim):
-    r = draw(gm.recipes2d(hmin=4, hmax=9) if dim == 2 else gm.recipes3d())
+    if draw(st.integers(0, 3)) == 0:
+        r = draw(gm.merged_recipes(dim))  # deliberately mixed: two blocks of different element types merged
+    else:
+        r = draw(gm.recipes2d(hmin=4, hmax=9) if dim == 2 else gm.recipes3d())
     law = draw(gmod.elastic_specs(dim))
     G = draw(grad_strategy(dim))
     c = [draw(st.integers(-3, 3)) for _ in range(dim)]
@@ -49,8 +52,8 @@ def elastic_cases(draw, dim):
 
 def check_elastic(case, rec):
     r = case["recipe"]
-    dim = gm.dim_of(r["elemType"])
-    mesh = gm.build(r)
+    dim = gm.dim_any(r)
+    mesh = gm.build_any(r)
     if mesh.Nn > 450:
         raise Inconclusive("mesh too large for the quick oracle")
     types = gm.mesh_types(mesh)
@@ -59,10 +62,11 @@ def check_elastic(case, rec):
     c = np.array(case["c"], float) / 4.0
     sig = dict(elemType=r["elemType"], types=types, law=case["law"]["cls"], dim=dim)
     rec.label("types:" + types, "law:" + case["law"]["cls"] + (":ps" if case["law"]["planeStress"] else ""),
-              "form:" + case["form"], "affine" if r.get("A") else "plain", "perm" if r.get("perm") is not None else "noperm")
+              "form:" + case["form"], "affine" if r.get("A") else "plain", "perm" if r.get("perm") is not None else "noperm",
+              "merged" if r.get("merged") else "gmsh")
 
     simu = Simulations.Elastic(mesh, mat)
-    bnodes = gm.boundary_nodes(mesh)
+    bnodes = gm.boundary_any(mesh, r)
     coord = np.asarray(mesh.coord, float)
     X = coord[:, :dim]
     uex = X @ G.T + c  # (Nn, dim)
@@ -186,9 +190,9 @@ def check_thermal(case, rec):
 
 
 SUBS = [
-    Sub("elastic2d", check_elastic, gen=lambda: elastic_cases(2), quick=60, thorough=700, shards=6),
-    Sub("elastic3d", check_elastic, gen=lambda: elastic_cases(3), quick=25, thorough=250, shards=6),
-    Sub("thermal", check_thermal, gen=thermal_cases, quick=60, thorough=700, shards=4),
+    Sub("elastic2d", check_elastic, gen=lambda: elastic_cases(2), quick=150, thorough=700, shards=6),
+    Sub("elastic3d", check_elastic, gen=lambda: elastic_cases(3), quick=60, thorough=250, shards=6),
+    Sub("thermal", check_thermal, gen=thermal_cases, quick=150, thorough=700, shards=4),
 ]
 
 
